@@ -430,7 +430,7 @@ func runC03(c *Ctx) {
 				syms := refTo5(append([]byte{ver}, randBytes(r, hl)...), 0)
 				body := refCashString(pfx, syms)
 				decodeCash(c, pfx+":"+body) // the valid string itself is accepted
-				if typ == 0 { // substitution by the other-case form of a letter (one to four letters), white space at the ends
+				if typ == 0 {               // substitution by the other-case form of a letter (one to four letters), white space at the ends
 					seenL := map[byte]bool{}
 					var lp []int
 					for i := 0; i < len(body); i++ {
